@@ -107,12 +107,12 @@ def splitSpace (b : Bytes) : List Bytes := (splitOnByte 0x20 b).filter (fun x =>
 def execCmd : Exec ByteArray := fun stg w =>
   match splitSpace stg.cmd with
   | prog :: id :: rest =>
+    -- the command is started in the stage's working directory, which must exist
+    if stg.wd != [Path.dot] && !(match getPath w.ws (Path.comps stg.wd) with | some (.dir _) => true | _ => false) then .error .other else
     -- `vprobe …` looks but does not touch
     if prog == str "vprobe" then .ok w else
     -- `vfail <id> <code>` touches nothing and exits non-zero
     if prog == str "vfail" then .error .other else
-    -- the command is started in the stage's working directory, which must exist
-    if stg.wd != [Path.dot] && !(match getPath w.ws (Path.comps stg.wd) with | some (.dir _) => true | _ => false) then .error .other else
     let outs := rest.takeWhile (· != str "--")
     let ins := (rest.dropWhile (· != str "--")).drop 1
     -- `vlen …`: like vcmd, but only the lengths of the input files matter
